@@ -58,7 +58,7 @@ STRATA = [[op, mode] for op in FAIL_OPS for mode in ("limit", "oversize", "late"
 @st.composite
 def _case(draw, stratum):
     n = draw(st.integers(1, 3))
-    names = ["Alpha", "Beta plate ", " Gamma_3"]
+    names = ["Alpha 70%", "Beta plate ", " Gamma_3"]
     labs = []
     for i in range(n):
         kind = draw(st.sampled_from(["plate", "trough"])) if i == 0 else draw(st.sampled_from(["plate", "plate", "trough"]))
